@@ -131,6 +131,7 @@ func safeInitBoltDB(dir string) error {
 	if err := os.Rename(tmpFileName, filepath.Join(dir, FileName)); err != nil {
 		return err
 	}
+	vhook("meta.rename", nil)
 
 	// And Fsync that parent dir to make sure the new new file with it's new name
 	// is persisted!
@@ -139,6 +140,7 @@ func safeInitBoltDB(dir string) error {
 		return err
 	}
 	err = dirF.Sync()
+	vhook("meta.fsync.dir", err)
 	closeErr := dirF.Close()
 	if err != nil {
 		return err
